@@ -358,7 +358,9 @@ def build(case, kind: str, *, auto_alias=False, backend: Backend | None = None, 
                 except SubqueryError as ex2:
                     last = ex2
                     continue
-                except Exception as ex2:  # noqa: BLE001
+                except BaseException as ex2:  # noqa: BLE001
+                    if isinstance(ex2, (KeyboardInterrupt, SystemExit, GeneratorExit)) or type(ex2).__name__ == "CaseTimeout":
+                        raise
                     res.error = (k, ex2)
                     steps[k : k + 1] = pre + [st2]
                     break
@@ -373,7 +375,9 @@ def build(case, kind: str, *, auto_alias=False, backend: Backend | None = None, 
                 res.error = (k, last)
                 break
             continue
-        except Exception as ex:  # noqa: BLE001 - recorded, classified by the check
+        except BaseException as ex:  # noqa: BLE001 - recorded, classified by the check
+            if isinstance(ex, (KeyboardInterrupt, SystemExit, GeneratorExit)) or type(ex).__name__ == "CaseTimeout":
+                raise
             res.error = (k, ex)
             break
         k += 1
